@@ -4,10 +4,12 @@ C05 driver.  case:
    "headers":[[name,value]…], "body":str, "allow_log":bool, "via":"direct"|"router", …}
 "m" = the model (`fromRoutesRule`, then the observers run in sequence on a fresh copy per response code);
 "s" = the specification (`Spec.action` / `Spec.observe` over `Spec.contributing` of an independently
-sorted list).  Both are rendered by the same codec.
+sorted list).  In "router" mode with pairwise distinct ranks both sides also print the action trace
+(`traceActions` / `Spec.traceSteps`, C17 clause 3) against `TraceAction::from_trace_rules`.  Both are rendered by the same codec.
 -/
 import Drivers.Common
 import RioModel.Model.ActionJson
+import RioModel.Model.ActionTrace
 open Lean Rio.Action Rio.Action.Codec
 
 def parseHeaderPair (j : Json) : Except String Rio.Header.Header := do
@@ -30,13 +32,24 @@ def handle (j : Json) : Except String Json := do
   let aLo := fromRoutesRule rules q lo
   let aHi := fromRoutesRule rules q hi
   if aLo != aHi then throw "case depends on the sampling draw"
-  let render (useRef : Bool) (a : Action) (obs : Nat → List (OpResult × List RuleId)) : Json :=
-    Json.mkObj [("action", jAction a),
+  -- the action trace is observed in router mode when the ranks are pairwise distinct (C17 clause 3)
+  let via := (Drv.str? j "via").toOption.getD "direct"
+  let ranks := rules.map (·.rank)
+  let traced := via == "router" && ranks.eraseDups.length == ranks.length
+  let jSteps (steps : List TraceAction) : Json :=
+    if traced then
+      Json.arr (steps.map fun t =>
+        Json.mkObj [("id", toJson (stringOfId t.rule.id)), ("action", jAction t.action)]).toArray
+    else Json.null
+  let render (useRef : Bool) (a : Action) (steps : List TraceAction)
+      (obs : Nat → List (OpResult × List RuleId)) : Json :=
+    Json.mkObj [("action", jAction a), ("trace", jSteps steps),
       ("codes", Json.arr (codes.map fun c =>
         Json.mkObj [("c", toJson c), ("ops", Json.arr ((obs c).map (renderOp useRef headers body)).toArray)]).toArray)]
-  let m := render false aLo (fun c => runOps allow c aLo ops)
-  let C := Spec.contributing q lo (Spec.insertionSort rules)
-  let s := render true (Spec.action q C) (fun c => Spec.observe q C allow c [] ops)
+  let m := render false aLo (traceActions rules q lo) (fun c => runOps allow c aLo ops)
+  let sorted := Spec.insertionSort rules
+  let C := Spec.contributing q lo sorted
+  let s := render true (Spec.action q C) (Spec.traceSteps q lo sorted) (fun c => Spec.observe q C allow c [] ops)
   let tags : List String :=
     [s!"contrib:{C.length}"] ++
     (if (Spec.primaryFallback Spec.carriesStatus C).any (·.2.isSome) then ["status-fallback"] else []) ++
